@@ -66,7 +66,8 @@ class C10Machine(RecordingMixin, RuleBasedStateMachine):
                 g, mn, mx = o.get(), o.min_bound, o.max_bound
             except Exception as e:  # noqa: BLE001
                 raise unexpected(e, "Parameter getters") from e
-            if type(g) is not type(p["value"]) or g != p["value"]:
+            both_nan = isinstance(g, float) and isinstance(p["value"], float) and g != g and p["value"] != p["value"]
+            if (type(g) is not type(p["value"]) or g != p["value"]) and not both_nan:
                 raise Violation(f"{what}: parameter #{i} reports {g!r}, model says {p['value']!r}",
                                 key="parameter-value-mismatch")
             if mn != p["min"] or mx != p["max"]:
@@ -121,6 +122,10 @@ class C10Machine(RecordingMixin, RuleBasedStateMachine):
             raise Violation(f"{what}: circuit #{ci} ({'frozen' if circ['frozen'] is not None else 'live'}) does not "
                             f"report the unitary for the current parameter values {vals}",
                             key="stale-unitary" if circ["frozen"] is None else "frozen-copy-moved")
+        try:
+            U[...] = 0          # whatever the caller does to the array it was given, later reads report the circuit
+        except (ValueError, TypeError):
+            pass
         self.reads[ci] = self.reads.get(ci, 0) + 1
         # listing
         try:
@@ -152,6 +157,46 @@ class C10Machine(RecordingMixin, RuleBasedStateMachine):
             a, b = sorted([lo, hi])
             bounds = [min(a, value), max(b, value)]
         self.new_param(value, bounds, label, kind)
+
+    def do_param_one_sided(self, value, bound, side, label, kind):
+        """Parameter(value, bounds=[None, b]) / bounds=(b, None): accepted iff the value respects the one bound."""
+        import lightworks as lw
+        from lightworks.sdk.utils import ParameterBoundsError, ParameterValueError
+        if len(self.params) >= 8:
+            return
+        bounds = [None, bound] if side == "max" else (bound, None)
+        ok = value <= bound if side == "max" else value >= bound
+        try:
+            obj = lw.Parameter(value, bounds=bounds, label=label)
+        except (ParameterBoundsError, ParameterValueError, ValueError):
+            if ok:
+                raise Violation(f"Parameter({value}, bounds={bounds}) rejected although the value respects the bound",
+                                key="valid-construction-rejected") from None
+            self.rejected += 1
+            self.info_labels.add("rejected-construction")
+            return
+        except Exception as e:  # noqa: BLE001
+            raise unexpected(e, f"Parameter({value!r}, bounds={bounds})") from e
+        if not ok:
+            raise Violation(f"Parameter({value}, bounds={bounds}) was created with its value outside its bounds "
+                            f"(value {obj.get()}, bounds [{obj.min_bound}, {obj.max_bound}])",
+                            key="value-outside-bounds")
+        self.params.append({"obj": obj, "value": value, "min": bounds[0], "max": bounds[1], "kind": kind})
+        self.info_labels.add("one-sided-bounds")
+
+    def do_set_nan(self, i):
+        """NaN on an unbounded reflectivity / loss parameter: accepted by the parameter, invalid for the component."""
+        if not self.params:
+            return
+        p = self.params[i % len(self.params)]
+        if p["kind"] != "unit" or p["min"] is not None or p["max"] is not None:
+            return
+        try:
+            p["obj"].set(float("nan"))
+        except Exception as e:  # noqa: BLE001
+            raise unexpected(e, "Parameter.set(nan) on an unbounded parameter") from e
+        p["value"] = float("nan")
+        self.info_labels.add("nan-on-unit-parameter")
 
     def do_set(self, i, value):
         from lightworks.sdk.utils import ParameterValueError
@@ -361,6 +406,19 @@ class C10Machine(RecordingMixin, RuleBasedStateMachine):
             value = min(1.0, abs(value)) if isinstance(value, float) else abs(value) % 2
             lo, hi = 0.0, 1.0
         self.step("param", value=value, bounded=bounded, lo=lo, hi=hi, label=label, kind=kind)
+
+    @rule(value=st.sampled_from([0.0, 0.3, 0.5, 1.0, 0.75, 1, 0]), bound=st.sampled_from([0.0, 0.5, 1.0, 0.25, 1, 0]),
+          side=st.sampled_from(["min", "max"]), label=st.sampled_from([None, "b"]))
+    def r_param_one_sided(self, value, bound, side, label):
+        self.step("param_one_sided", value=value, bound=bound, side=side, label=label, kind="unit")
+
+    @rule(ci=st.integers(0, 10), j=st.integers(0, 5))
+    def r_set_nan(self, ci, j):
+        if not self.circs:
+            return
+        c = self.circs[ci % len(self.circs)]
+        if c["pids"]:
+            self.step("set_nan", i=c["pids"][j % len(c["pids"])])
 
     @rule(i=st.integers(0, 20), value=st.one_of(any_num, any_num, st.floats(-30, 30), st.sampled_from(["a", True, None])))
     def r_set(self, i, value):
